@@ -1,11 +1,1291 @@
-//! C11 — not built yet (see DESIGN.md §5 C11).
+//! C11 — a DML statement that returns an error leaves the observable database state unchanged;
+//! a successful multi-row statement applies all of its rows (DESIGN §5 C11).
+//!
+//! Space: for every *scenario* (schema + constraint/trigger/foreign-key furniture) every state
+//! reachable in ≤ D steps of the scenario's set-up alphabet (explicit-state search, states merged on
+//! the canonical whole-value fingerprint) × two contexts (autocommit; inside BEGIN + SAVEPOINT) ×
+//! every *case* of the scenario's statement menu. The menu enumerates, for every statement shape and
+//! every fault class the executors distinguish, the position k (1 ≤ k ≤ n ≤ 3) of the row at which the
+//! statement fails. A case may carry preparation statements (loading the rows that put the fault at
+//! position k); the pre-state is observed after them.
+//!
+//! Oracle: if the statement returns Err (or panics), `obs_state` (tables as bags, catalog, user-index
+//! definitions, probe battery through the indexes) and the outcome of a menu of follow-up statement sequences on clones
+//! (`future`) are the same before and after. (Shortcut: equal canonical whole-value text ⇒ equal.)
+//! If it returns Ok(n) and the reference model can express the statement: n and the target table's
+//! contents equal the model's (all rows applied).
 
-pub fn run(_tier: &str) -> i32 {
-    eprintln!("MACHINERY-ERROR C11 is not built yet");
-    2
+use std::collections::{BTreeMap, HashSet};
+use std::sync::Mutex;
+
+use serde_json::{json, Value};
+use vibesql_storage::Database;
+
+use vcore::exec::Out;
+use vcore::obs;
+use vcore::report::Report;
+
+use crate::model::{self, Act, Fk, Op, Pred, Schema, SetExpr, TableDecl};
+use crate::sx::{self, strs};
+
+pub struct Case {
+    pub prep: Vec<String>,
+    pub stmt: String,
+    pub op: Option<Op>,
+    /// statement shape
+    pub kind: &'static str,
+    /// intended fault class
+    pub fault: &'static str,
+    pub n: usize,
+    pub k: usize,
 }
 
-pub fn replay(_case: &serde_json::Value) -> i32 {
-    eprintln!("MACHINERY-ERROR C11 is not built yet");
-    2
+pub struct Scenario {
+    pub name: String,
+    pub prelude: Vec<String>,
+    pub schema: Schema,
+    pub setup: Vec<String>,
+    pub cases: Vec<Case>,
+    pub future: Vec<Vec<String>>,
+}
+
+const N: Option<i64> = None;
+fn s(i: i64) -> Option<i64> {
+    Some(i)
+}
+
+fn rows_sql(rows: &[Vec<Option<i64>>]) -> String {
+    rows.iter()
+        .map(|r| format!("({})", r.iter().map(|v| v.map(|i| i.to_string()).unwrap_or("NULL".into())).collect::<Vec<_>>().join(", ")))
+        .collect::<Vec<_>>()
+        .join(", ")
+}
+
+fn one(x: &str) -> Vec<String> {
+    vec![x.to_string()]
+}
+
+// ------------------------------------------------------------------------------------------------
+// scenario A: declared constraints (PK, UNIQUE, NOT NULL, CHECK, unique index, composite PK)
+// ------------------------------------------------------------------------------------------------
+
+fn cons_schema() -> Schema {
+    Schema {
+        tables: vec![
+            TableDecl { name: "D", cols: vec!["id", "v", "w"], defaults: vec![N, N, N] },
+            TableDecl { name: "D2", cols: vec!["a", "b"], defaults: vec![N, N] },
+            TableDecl { name: "E", cols: vec!["id", "v"], defaults: vec![N, N] },
+            TableDecl { name: "S", cols: vec!["id", "v", "w"], defaults: vec![N, N, N] },
+            TableDecl { name: "S2", cols: vec!["a", "b"], defaults: vec![N, N] },
+            TableDecl { name: "SE", cols: vec!["id", "v"], defaults: vec![N, N] },
+        ],
+        fks: vec![],
+    }
+}
+
+/// n rows for d, all fresh and valid, except that row k (1-based) carries the fault
+fn d_rows(n: usize, k: usize, fault: &str) -> Option<Vec<Vec<Option<i64>>>> {
+    let mut rows = vec![];
+    for i in 1..=n {
+        let i64i = i as i64;
+        let good = vec![s(10 + i64i), s(100 + i64i), s(0)];
+        if i != k {
+            rows.push(good);
+            continue;
+        }
+        let bad = match fault {
+            "pk_dup_existing" => vec![s(1), s(100 + i64i), s(0)],
+            "pk_dup_batch" => {
+                if k < 2 {
+                    return None;
+                }
+                vec![s(11), s(100 + i64i), s(0)]
+            }
+            "unique_dup_existing" => vec![s(10 + i64i), s(10), s(0)],
+            "unique_dup_batch" => {
+                if k < 2 {
+                    return None;
+                }
+                vec![s(10 + i64i), s(101), s(0)]
+            }
+            "not_null" => vec![s(10 + i64i), s(100 + i64i), N],
+            "check" => vec![s(10 + i64i), s(100 + i64i), s(100)],
+            "null_pk" => vec![N, s(100 + i64i), s(0)],
+            "none" => good,
+            _ => return None,
+        };
+        rows.push(bad);
+    }
+    Some(rows)
+}
+
+fn cons_scenario(thorough: bool) -> Scenario {
+    let prelude = strs(&[
+        "CREATE TABLE d (id INT PRIMARY KEY, v INT UNIQUE, w INT NOT NULL CHECK (w < 100))",
+        "CREATE INDEX dw ON d (w)",
+        "CREATE TABLE d2 (a INT, b INT, PRIMARY KEY (a, b))",
+        "CREATE TABLE e (id INT, v INT)",
+        "CREATE UNIQUE INDEX ue ON e (v)",
+        "CREATE TABLE s (id INT NOT NULL, v INT, w INT NOT NULL)",
+        "CREATE TABLE s2 (a INT NOT NULL, b INT NOT NULL)",
+        "CREATE TABLE se (id INT, v INT)",
+    ]);
+    let setup = strs(&[
+        "INSERT INTO d VALUES (1, 10, 0)",
+        "INSERT INTO d VALUES (2, 20, 1)",
+        "INSERT INTO d VALUES (1, 10, 0), (2, 20, 0), (3, 30, 0), (4, 40, 0)",
+        "DELETE FROM d WHERE id = 1",
+        "UPDATE d SET w = w + 1",
+        "INSERT INTO d2 VALUES (7, 1)",
+        "INSERT INTO e VALUES (1, 10)",
+    ]);
+    let mut cases: Vec<Case> = vec![];
+    let faults = ["none", "pk_dup_existing", "pk_dup_batch", "unique_dup_existing", "unique_dup_batch", "not_null", "check", "null_pk"];
+    let max_n: usize = if thorough { 4 } else { 3 };
+    for n in 1..=max_n {
+        for k in 1..=n {
+            for f in faults {
+                if f == "none" && k != n {
+                    continue;
+                }
+                let Some(rows) = d_rows(n, k, f) else { continue };
+                // multi-row VALUES (batch path for n > 1, single-row path for n = 1)
+                cases.push(Case {
+                    prep: vec![],
+                    stmt: format!("INSERT INTO d VALUES {}", rows_sql(&rows)),
+                    op: Some(Op::Insert { table: "D", cols: None, rows: rows.clone() }),
+                    kind: "insert_values",
+                    fault: f,
+                    n,
+                    k: if f == "none" { 0 } else { k },
+                });
+                // INSERT … SELECT: the same rows as source rows (s has no constraints of its own)
+                if f != "not_null" && f != "null_pk" {
+                    let prep = vec!["DELETE FROM s".to_string(), format!("INSERT INTO s VALUES {}", rows_sql(&rows))];
+                    cases.push(Case {
+                        prep: prep.clone(),
+                        stmt: "INSERT INTO d SELECT * FROM s".into(),
+                        op: Some(Op::InsertSelect { table: "D", from: "S", column_list: false }),
+                        kind: "insert_select_bulk",
+                        fault: f,
+                        n,
+                        k: if f == "none" { 0 } else { k },
+                    });
+                    cases.push(Case {
+                        prep: prep.clone(),
+                        stmt: "INSERT INTO d (id, v, w) SELECT id, v, w FROM s".into(),
+                        op: Some(Op::InsertSelect { table: "D", from: "S", column_list: true }),
+                        kind: "insert_select_normal",
+                        fault: f,
+                        n,
+                        k: if f == "none" { 0 } else { k },
+                    });
+                    if thorough {
+                        cases.push(Case {
+                            prep,
+                            stmt: "INSERT INTO d SELECT * FROM s WHERE id > 0".into(),
+                            op: None,
+                            kind: "insert_select_where",
+                            fault: f,
+                            n,
+                            k: if f == "none" { 0 } else { k },
+                        });
+                    }
+                }
+            }
+            // type error / arity error in the k-th row (text only)
+            let mut txt: Vec<String> = (1..=n).map(|i| format!("({}, {}, 0)", 10 + i, 100 + i)).collect();
+            let keep = txt.clone();
+            txt[k - 1] = format!("({}, 'x', 0)", 10 + k);
+            cases.push(Case { prep: vec![], stmt: format!("INSERT INTO d VALUES {}", txt.join(", ")), op: None, kind: "insert_values", fault: "type_error", n, k });
+            let mut txt = keep.clone();
+            txt[k - 1] = format!("({}, {})", 10 + k, 100 + k);
+            cases.push(Case { prep: vec![], stmt: format!("INSERT INTO d VALUES {}", txt.join(", ")), op: None, kind: "insert_values", fault: "arity", n, k });
+            // unique index on e(v): existing key 10 / key repeated in the batch
+            for f in ["uidx_dup_existing", "uidx_dup_batch"] {
+                if f == "uidx_dup_batch" && k < 2 {
+                    continue;
+                }
+                let rows: Vec<Vec<Option<i64>>> = (1..=n)
+                    .map(|i| {
+                        let i = i as i64;
+                        if i as usize == k {
+                            vec![s(10 + i), s(if f == "uidx_dup_existing" { 10 } else { 101 })]
+                        } else {
+                            vec![s(10 + i), s(100 + i)]
+                        }
+                    })
+                    .collect();
+                cases.push(Case {
+                    prep: vec![],
+                    stmt: format!("INSERT INTO e VALUES {}", rows_sql(&rows)),
+                    op: Some(Op::Insert { table: "E", cols: None, rows: rows.clone() }),
+                    kind: "insert_values_uidx",
+                    fault: f,
+                    n,
+                    k,
+                });
+                cases.push(Case {
+                    prep: vec!["DELETE FROM se".into(), format!("INSERT INTO se VALUES {}", rows_sql(&rows))],
+                    stmt: "INSERT INTO e SELECT * FROM se".into(),
+                    op: Some(Op::InsertSelect { table: "E", from: "SE", column_list: false }),
+                    kind: "insert_select_bulk_uidx",
+                    fault: f,
+                    n,
+                    k,
+                });
+            }
+            // composite primary key d2(a,b): existing (7,1) / repeated in the batch / NULL component
+            for f in ["pk_dup_existing", "pk_dup_batch", "null_pk"] {
+                if f == "pk_dup_batch" && k < 2 {
+                    continue;
+                }
+                let rows: Vec<Vec<Option<i64>>> = (1..=n)
+                    .map(|i| {
+                        let i = i as i64;
+                        if i as usize == k {
+                            match f {
+                                "pk_dup_existing" => vec![s(7), s(1)],
+                                "pk_dup_batch" => vec![s(7), s(11)],
+                                _ => vec![s(7), N],
+                            }
+                        } else {
+                            vec![s(7), s(10 + i)]
+                        }
+                    })
+                    .collect();
+                cases.push(Case {
+                    prep: vec![],
+                    stmt: format!("INSERT INTO d2 VALUES {}", rows_sql(&rows)),
+                    op: Some(Op::Insert { table: "D2", cols: None, rows: rows.clone() }),
+                    kind: "insert_values_composite",
+                    fault: f,
+                    n,
+                    k,
+                });
+                if f != "null_pk" {
+                    cases.push(Case {
+                        prep: vec!["DELETE FROM s2".into(), format!("INSERT INTO s2 VALUES {}", rows_sql(&rows))],
+                        stmt: "INSERT INTO d2 SELECT * FROM s2".into(),
+                        op: Some(Op::InsertSelect { table: "D2", from: "S2", column_list: false }),
+                        kind: "insert_select_bulk_composite",
+                        fault: f,
+                        n,
+                        k,
+                    });
+                }
+            }
+            // UPDATE whose k-th affected row violates (d reloaded with n rows + one bystander row 0)
+            let load = |rows: Vec<Vec<Option<i64>>>| -> Vec<String> { vec!["DELETE FROM d".to_string(), format!("INSERT INTO d VALUES {}", rows_sql(&rows))] };
+            let base = |special: &dyn Fn(i64) -> Vec<Option<i64>>| -> Vec<Vec<Option<i64>>> {
+                (1..=n as i64).map(|i| if i as usize == k { special(i) } else { vec![s(i), s(10 * i), s(0)] }).collect()
+            };
+            // CHECK at the k-th row
+            cases.push(Case {
+                prep: load(base(&|i| vec![s(i), s(10 * i), s(60)])),
+                stmt: "UPDATE d SET w = w + 50".into(),
+                op: Some(Op::Update { table: "D", pred: Pred::NoWhere, col: 2, set: SetExpr::Add(50) }),
+                kind: "update",
+                fault: "check",
+                n,
+                k,
+            });
+            // NOT NULL at the k-th row (w := v where v is NULL)
+            cases.push(Case {
+                prep: load(base(&|i| vec![s(i), N, s(0)])),
+                stmt: "UPDATE d SET w = v".into(),
+                op: None,
+                kind: "update",
+                fault: "not_null",
+                n,
+                k,
+            });
+            // UNIQUE collision of the k-th row with the bystander
+            let mut rows = base(&|i| vec![s(i), s(10 * i), s(0)]);
+            rows.push(vec![s(0), s(10 * k as i64 + 5), s(0)]);
+            cases.push(Case {
+                prep: load(rows),
+                stmt: "UPDATE d SET v = v + 5 WHERE id >= 1".into(),
+                op: Some(Op::Update { table: "D", pred: Pred::Ge(0, 1), col: 1, set: SetExpr::Add(5) }),
+                kind: "update",
+                fault: "unique_dup_existing",
+                n,
+                k,
+            });
+            // PRIMARY KEY collision of the k-th row with the bystander
+            let mut rows = base(&|i| vec![s(i), s(10 * i), s(0)]);
+            rows.push(vec![s(20 + k as i64), s(5), s(0)]);
+            cases.push(Case {
+                prep: load(rows),
+                stmt: "UPDATE d SET id = id + 20 WHERE id <= 4".into(),
+                op: None,
+                kind: "update_key",
+                fault: "pk_dup_existing",
+                n,
+                k,
+            });
+            // evaluation error / NULL at the k-th row
+            cases.push(Case {
+                prep: load(base(&|i| vec![s(i), s(10 * i), s(0)])),
+                stmt: format!("UPDATE d SET w = 10 / (id - {})", k),
+                op: None,
+                kind: "update",
+                fault: "eval_error",
+                n,
+                k,
+            });
+            // successful multi-row UPDATE and DELETE (all rows applied)
+            if k == n {
+                cases.push(Case {
+                    prep: load(base(&|i| vec![s(i), s(10 * i), s(0)])),
+                    stmt: "UPDATE d SET w = w + 50".into(),
+                    op: Some(Op::Update { table: "D", pred: Pred::NoWhere, col: 2, set: SetExpr::Add(50) }),
+                    kind: "update",
+                    fault: "none",
+                    n,
+                    k: 0,
+                });
+                cases.push(Case {
+                    prep: load(base(&|i| vec![s(i), s(10 * i), s(0)])),
+                    stmt: "DELETE FROM d WHERE id >= 1".into(),
+                    op: Some(Op::Delete { table: "D", pred: Pred::Ge(0, 1) }),
+                    kind: "delete",
+                    fault: "none",
+                    n,
+                    k: 0,
+                });
+                // the same with a predicate that leaves the first row alone
+                cases.push(Case {
+                    prep: load(base(&|i| vec![s(i), s(10 * i), s(0)])),
+                    stmt: "DELETE FROM d WHERE id >= 2".into(),
+                    op: Some(Op::Delete { table: "D", pred: Pred::Ge(0, 2) }),
+                    kind: "delete",
+                    fault: "none",
+                    n,
+                    k: 0,
+                });
+                cases.push(Case {
+                    prep: load(base(&|i| vec![s(i), s(10 * i), s(0)])),
+                    stmt: "UPDATE d SET w = w + 1 WHERE id >= 2".into(),
+                    op: Some(Op::Update { table: "D", pred: Pred::Ge(0, 2), col: 2, set: SetExpr::Add(1) }),
+                    kind: "update",
+                    fault: "none",
+                    n,
+                    k: 0,
+                });
+            }
+        }
+        // a column that does not exist
+        let txt: Vec<String> = (1..=n).map(|i| format!("({}, {}, 0)", 10 + i, 100 + i)).collect();
+        cases.push(Case { prep: vec![], stmt: format!("INSERT INTO d (id, nope, w) VALUES {}", txt.join(", ")), op: None, kind: "insert_values", fault: "missing_column", n, k: 0 });
+    }
+    cases.push(Case { prep: vec![], stmt: "UPDATE d SET nope = 1".into(), op: None, kind: "update", fault: "missing_column", n: 0, k: 0 });
+    cases.push(Case { prep: vec![], stmt: "UPDATE d SET w = 'x'".into(), op: None, kind: "update", fault: "type_error", n: 0, k: 0 });
+    cases.push(Case { prep: vec![], stmt: "DELETE FROM d WHERE nope = 1".into(), op: None, kind: "delete", fault: "missing_column", n: 0, k: 0 });
+    // conflict-resolving inserts work row by row
+    let d12 = vec!["DELETE FROM d".to_string(), "INSERT INTO d VALUES (1, 10, 0), (2, 20, 1)".to_string()];
+    cases.push(Case {
+        prep: d12.clone(),
+        stmt: "INSERT INTO d VALUES (11, 110, 0), (1, 50, 0) ON DUPLICATE KEY UPDATE v = 20".into(),
+        op: None,
+        kind: "insert_on_duplicate_key_update",
+        fault: "unique_dup_in_update",
+        n: 2,
+        k: 2,
+    });
+    cases.push(Case {
+        prep: d12.clone(),
+        stmt: "INSERT INTO d VALUES (1, 50, 0), (11, 110, 0) ON DUPLICATE KEY UPDATE v = 20".into(),
+        op: None,
+        kind: "insert_on_duplicate_key_update",
+        fault: "unique_dup_in_update",
+        n: 2,
+        k: 1,
+    });
+    cases.push(Case {
+        prep: d12.clone(),
+        stmt: "REPLACE INTO d VALUES (11, 110, 0), (12, 120, NULL)".into(),
+        op: None,
+        kind: "replace_values",
+        fault: "not_null",
+        n: 2,
+        k: 2,
+    });
+    cases.push(Case {
+        prep: d12,
+        stmt: "REPLACE INTO d VALUES (1, 110, 0), (12, 120, 100)".into(),
+        op: None,
+        kind: "replace_values",
+        fault: "check",
+        n: 2,
+        k: 2,
+    });
+    let e1 = vec!["DELETE FROM e".to_string(), "INSERT INTO e VALUES (1, 10)".to_string()];
+    cases.push(Case { prep: e1.clone(), stmt: "REPLACE INTO e VALUES (5, 50), (6, 10)".into(), op: None, kind: "replace_values_uidx", fault: "uidx_dup_existing", n: 2, k: 2 });
+    cases.push(Case { prep: e1, stmt: "REPLACE INTO e VALUES (5, 50), (6, 50)".into(), op: None, kind: "replace_values_uidx", fault: "uidx_dup_batch", n: 2, k: 2 });
+    let future = vec![
+        one("INSERT INTO d VALUES (1, 10, 0)"),
+        one("INSERT INTO d VALUES (11, 101, 0)"),
+        one("INSERT INTO d VALUES (12, 102, 0)"),
+        one("INSERT INTO d VALUES (13, 103, 0)"),
+        one("INSERT INTO d VALUES (50, 500, 50)"),
+        one("INSERT INTO d VALUES (51, 10, 0)"),
+        one("INSERT INTO d VALUES (52, 15, 0)"),
+        one("INSERT INTO d2 VALUES (7, 11)"),
+        one("INSERT INTO d2 VALUES (7, 1)"),
+        one("INSERT INTO e VALUES (60, 101)"),
+        one("INSERT INTO e VALUES (60, 10)"),
+        one("INSERT INTO e VALUES (60, 50)"),
+        one("UPDATE d SET w = w + 1"),
+        one("UPDATE d SET v = 101 WHERE id = 2"),
+        one("DELETE FROM d WHERE w = 0"),
+        one("SELECT id FROM d WHERE w >= 0 ORDER BY w, id"),
+        one("SELECT id FROM e WHERE v > 0 ORDER BY v"),
+        strs(&["INSERT INTO d SELECT * FROM s", "SELECT * FROM d"]),
+    ];
+    Scenario { name: "cons".into(), prelude, schema: cons_schema(), setup, cases, future }
+}
+
+// ------------------------------------------------------------------------------------------------
+// scenario B: foreign keys (children with CASCADE, NO ACTION, SET NULL actions on one parent)
+// ------------------------------------------------------------------------------------------------
+
+fn fk_scenario(thorough: bool) -> Scenario {
+    let prelude = strs(&[
+        "CREATE TABLE p (id INT PRIMARY KEY, v INT UNIQUE)",
+        "CREATE TABLE c1 (id INT PRIMARY KEY, pid INT, FOREIGN KEY (pid) REFERENCES p (id) ON DELETE CASCADE ON UPDATE CASCADE)",
+        "CREATE INDEX c1p ON c1 (pid)",
+        "CREATE TABLE c2 (id INT PRIMARY KEY, pid INT, FOREIGN KEY (pid) REFERENCES p (id))",
+        "CREATE TABLE c3 (id INT PRIMARY KEY, pid INT, FOREIGN KEY (pid) REFERENCES p (id) ON DELETE SET NULL ON UPDATE SET NULL)",
+        "CREATE TABLE sc (id INT NOT NULL, pid INT)",
+    ]);
+    let schema = Schema {
+        tables: vec![
+            TableDecl { name: "P", cols: vec!["id", "v"], defaults: vec![N, N] },
+            TableDecl { name: "C1", cols: vec!["id", "pid"], defaults: vec![N, N] },
+            TableDecl { name: "C2", cols: vec!["id", "pid"], defaults: vec![N, N] },
+            TableDecl { name: "C3", cols: vec!["id", "pid"], defaults: vec![N, N] },
+            TableDecl { name: "SC", cols: vec!["id", "pid"], defaults: vec![N, N] },
+        ],
+        fks: vec![
+            Fk { child: "C1", cols: vec![1], parent: "P", pcols: vec![0], on_delete: Act::Cascade, on_update: Act::Cascade },
+            Fk { child: "C2", cols: vec![1], parent: "P", pcols: vec![0], on_delete: Act::NoAction, on_update: Act::NoAction },
+            Fk { child: "C3", cols: vec![1], parent: "P", pcols: vec![0], on_delete: Act::SetNull, on_update: Act::SetNull },
+        ],
+    };
+    let setup = strs(&[
+        "INSERT INTO p VALUES (1, 10)",
+        "INSERT INTO p VALUES (2, 20)",
+        "INSERT INTO c1 VALUES (1, 1)",
+        "INSERT INTO c2 VALUES (1, 2)",
+        "INSERT INTO c3 VALUES (1, 1)",
+        "INSERT INTO c1 VALUES (2, 2)",
+    ]);
+    let mut cases: Vec<Case> = vec![];
+    let wipe = strs(&["DELETE FROM c1", "DELETE FROM c2", "DELETE FROM c3", "DELETE FROM p", "DELETE FROM sc"]);
+    let max_n: usize = if thorough { 4 } else { 3 };
+    for n in 1..=max_n {
+        for k in 0..=n {
+            // parents 1..n, each with a CASCADE child and a SET NULL child; the NO ACTION child hangs
+            // on parent k (k = 0: no such child, the statement succeeds)
+            let mut prep = wipe.clone();
+            let prow: Vec<Vec<Option<i64>>> = (1..=n as i64).map(|i| vec![s(i), s(10 * i)]).collect();
+            let crow: Vec<Vec<Option<i64>>> = (1..=n as i64).map(|i| vec![s(i), s(i)]).collect();
+            prep.push(format!("INSERT INTO p VALUES {}", rows_sql(&prow)));
+            prep.push(format!("INSERT INTO c1 VALUES {}", rows_sql(&crow)));
+            prep.push(format!("INSERT INTO c3 VALUES {}", rows_sql(&crow)));
+            if k > 0 {
+                prep.push(format!("INSERT INTO c2 VALUES (1, {})", k));
+            }
+            let fault = if k == 0 { "none" } else { "fk_no_action_child" };
+            cases.push(Case {
+                prep: prep.clone(),
+                stmt: "DELETE FROM p".into(),
+                op: Some(Op::Delete { table: "P", pred: Pred::NoWhere }),
+                kind: "delete_parent_nowhere",
+                fault,
+                n,
+                k,
+            });
+            cases.push(Case {
+                prep: prep.clone(),
+                stmt: "DELETE FROM p WHERE id >= 1".into(),
+                op: Some(Op::Delete { table: "P", pred: Pred::Ge(0, 1) }),
+                kind: "delete_parent_range",
+                fault,
+                n,
+                k,
+            });
+            cases.push(Case {
+                prep: prep.clone(),
+                stmt: "UPDATE p SET id = id + 10".into(),
+                op: Some(Op::Update { table: "P", pred: Pred::NoWhere, col: 0, set: SetExpr::Add(10) }),
+                kind: "update_parent_key",
+                fault,
+                n,
+                k,
+            });
+            if k > 0 {
+                cases.push(Case {
+                    prep: prep.clone(),
+                    stmt: format!("DELETE FROM p WHERE id = {}", k),
+                    op: Some(Op::Delete { table: "P", pred: Pred::Eq(0, k as i64) }),
+                    kind: "delete_parent_by_key",
+                    fault,
+                    n,
+                    k,
+                });
+                cases.push(Case {
+                    prep: prep.clone(),
+                    stmt: format!("UPDATE p SET id = 9 WHERE id = {}", k),
+                    op: Some(Op::Update { table: "P", pred: Pred::Eq(0, k as i64), col: 0, set: SetExpr::Const(s(9)) }),
+                    kind: "update_parent_key_by_key",
+                    fault,
+                    n,
+                    k,
+                });
+            }
+            if k == 0 {
+                continue;
+            }
+            // child rows whose k-th row has no parent: VALUES, bulk INSERT … SELECT, normal INSERT … SELECT
+            let mut prep = wipe.clone();
+            prep.push("INSERT INTO p VALUES (1, 10), (2, 20), (3, 30)".into());
+            let rows: Vec<Vec<Option<i64>>> = (1..=n as i64).map(|i| vec![s(10 + i), s(if i as usize == k { 9 } else { 1 + (i % 3) })]).collect();
+            cases.push(Case {
+                prep: prep.clone(),
+                stmt: format!("INSERT INTO c2 VALUES {}", rows_sql(&rows)),
+                op: Some(Op::Insert { table: "C2", cols: None, rows: rows.clone() }),
+                kind: "insert_child_values",
+                fault: "fk_orphan",
+                n,
+                k,
+            });
+            let mut prep2 = prep.clone();
+            prep2.push(format!("INSERT INTO sc VALUES {}", rows_sql(&rows)));
+            cases.push(Case {
+                prep: prep2.clone(),
+                stmt: "INSERT INTO c2 SELECT * FROM sc".into(),
+                op: Some(Op::InsertSelect { table: "C2", from: "SC", column_list: false }),
+                kind: "insert_child_select_bulk",
+                fault: "fk_orphan",
+                n,
+                k,
+            });
+            cases.push(Case {
+                prep: prep2,
+                stmt: "INSERT INTO c2 (id, pid) SELECT id, pid FROM sc".into(),
+                op: Some(Op::InsertSelect { table: "C2", from: "SC", column_list: true }),
+                kind: "insert_child_select_normal",
+                fault: "fk_orphan",
+                n,
+                k,
+            });
+            // UPDATE of the child: the k-th row moves to a missing parent (3 + 1)
+            let rows: Vec<Vec<Option<i64>>> = (1..=n as i64).map(|i| vec![s(i), s(if i as usize == k { 3 } else { 1 + (i % 2) })]).collect();
+            let mut prep3 = prep.clone();
+            prep3.push(format!("INSERT INTO c2 VALUES {}", rows_sql(&rows)));
+            cases.push(Case {
+                prep: prep3,
+                stmt: "UPDATE c2 SET pid = pid + 1".into(),
+                op: Some(Op::Update { table: "C2", pred: Pred::NoWhere, col: 1, set: SetExpr::Add(1) }),
+                kind: "update_child_fk",
+                fault: "fk_orphan",
+                n,
+                k,
+            });
+        }
+    }
+    // statements on whatever the set-up alphabet built
+    for (stmt, kind) in [
+        ("DELETE FROM p WHERE id = 1", "delete_parent_by_key"),
+        ("DELETE FROM p WHERE id = 2", "delete_parent_by_key"),
+        ("DELETE FROM p", "delete_parent_nowhere"),
+        ("DELETE FROM p WHERE v >= 10", "delete_parent_range"),
+        ("UPDATE p SET id = id + 10", "update_parent_key"),
+        ("UPDATE p SET id = 7 WHERE id = 2", "update_parent_key_by_key"),
+        ("TRUNCATE TABLE p", "truncate_parent"),
+        ("INSERT INTO c2 VALUES (5, 1), (6, 9)", "insert_child_values"),
+        ("UPDATE c1 SET pid = 9", "update_child_fk"),
+    ] {
+        cases.push(Case { prep: vec![], stmt: stmt.into(), op: None, kind, fault: "state_dependent", n: 0, k: 0 });
+    }
+    let future = vec![
+        one("INSERT INTO c1 VALUES (20, 1)"),
+        one("INSERT INTO c1 VALUES (20, 2)"),
+        one("INSERT INTO c1 VALUES (20, 3)"),
+        one("INSERT INTO c1 VALUES (20, 11)"),
+        one("INSERT INTO c1 VALUES (1, NULL)"),
+        one("INSERT INTO c2 VALUES (1, NULL)"),
+        one("INSERT INTO c3 VALUES (1, NULL)"),
+        one("INSERT INTO p VALUES (1, 99)"),
+        one("INSERT INTO p VALUES (11, 98)"),
+        one("DELETE FROM p WHERE id = 1"),
+        one("DELETE FROM p WHERE id = 11"),
+        one("SELECT id FROM c1 WHERE pid = 1"),
+        one("SELECT id FROM c1 WHERE pid >= 1 ORDER BY pid, id"),
+    ];
+    Scenario { name: "fk".into(), prelude, schema, setup, cases, future }
+}
+
+// ------------------------------------------------------------------------------------------------
+// scenario C: triggers that fail at the k-th row (one scenario per timing × event × granularity)
+// ------------------------------------------------------------------------------------------------
+
+fn trig_scenario(timing: &'static str, event: &'static str, gran: &'static str, thorough: bool) -> Scenario {
+    let body = match (gran, event) {
+        ("STATEMENT", _) => "INSERT INTO lg VALUES (0)".to_string(),
+        ("ROW2", "DELETE") => "INSERT INTO lg VALUES (OLD.id + 100); INSERT INTO lg VALUES (OLD.id)".to_string(),
+        ("ROW2", _) => "INSERT INTO lg VALUES (NEW.id + 100); INSERT INTO lg VALUES (NEW.id)".to_string(),
+        (_, "DELETE") => "INSERT INTO lg VALUES (OLD.id)".to_string(),
+        _ => "INSERT INTO lg VALUES (NEW.id)".to_string(),
+    };
+    let g = if gran == "STATEMENT" { "STATEMENT" } else { "ROW" };
+    let prelude = vec![
+        "CREATE TABLE t (id INT PRIMARY KEY, v INT)".to_string(),
+        "CREATE INDEX tv ON t (v)".to_string(),
+        "CREATE TABLE lg (k INT PRIMARY KEY)".to_string(),
+        "CREATE TABLE st (id INT NOT NULL, v INT)".to_string(),
+        format!("#TRIGGER trg {} {} {} t :: {}", timing, event, g, body),
+    ];
+    let schema = Schema {
+        tables: vec![
+            TableDecl { name: "T", cols: vec!["id", "v"], defaults: vec![N, N] },
+            TableDecl { name: "LG", cols: vec!["k"], defaults: vec![N] },
+            TableDecl { name: "ST", cols: vec!["id", "v"], defaults: vec![N, N] },
+        ],
+        fks: vec![],
+    };
+    let setup = strs(&["INSERT INTO t VALUES (1, 10)", "INSERT INTO t VALUES (2, 20), (3, 30)", "INSERT INTO lg VALUES (50)", "DELETE FROM t WHERE id = 1", "UPDATE t SET v = v + 1"]);
+    let mut cases = vec![];
+    let max_n: usize = if thorough { 4 } else { 3 };
+    for n in 1..=max_n {
+        for k in 0..=n {
+            if gran == "STATEMENT" && k > 1 {
+                continue;
+            }
+            // k = 0: the trigger does not fail
+            let fault: &'static str = match (k, gran) {
+                (0, _) => "none",
+                (_, "STATEMENT") => "trigger_statement",
+                (_, "ROW2") => "trigger_row_second_body_statement",
+                _ => "trigger_row",
+            };
+            let poison = |key: i64| -> Vec<String> {
+                if k == 0 {
+                    vec!["DELETE FROM lg".to_string()]
+                } else if gran == "STATEMENT" {
+                    vec!["DELETE FROM lg".to_string(), "INSERT INTO lg VALUES (0)".to_string()]
+                } else {
+                    vec!["DELETE FROM lg".to_string(), format!("INSERT INTO lg VALUES ({})", key)]
+                }
+            };
+            match event {
+                "INSERT" => {
+                    let rows: Vec<Vec<Option<i64>>> = (1..=n as i64).map(|i| vec![s(10 + i), s(100 + i)]).collect();
+                    let prep = poison(10 + k as i64);
+                    cases.push(Case {
+                        prep: prep.clone(),
+                        stmt: format!("INSERT INTO t VALUES {}", rows_sql(&rows)),
+                        op: Some(Op::Insert { table: "T", cols: None, rows: rows.clone() }),
+                        kind: "insert_values",
+                        fault,
+                        n,
+                        k,
+                    });
+                    let mut p2 = vec!["DELETE FROM st".to_string(), format!("INSERT INTO st VALUES {}", rows_sql(&rows))];
+                    p2.extend(prep);
+                    cases.push(Case {
+                        prep: p2.clone(),
+                        stmt: "INSERT INTO t (id, v) SELECT id, v FROM st".into(),
+                        op: Some(Op::InsertSelect { table: "T", from: "ST", column_list: true }),
+                        kind: "insert_select_normal",
+                        fault,
+                        n,
+                        k,
+                    });
+                    if thorough {
+                        cases.push(Case {
+                            prep: p2,
+                            stmt: "INSERT INTO t SELECT * FROM st".into(),
+                            op: Some(Op::InsertSelect { table: "T", from: "ST", column_list: false }),
+                            kind: "insert_select_bulk",
+                            fault,
+                            n,
+                            k,
+                        });
+                    }
+                }
+                _ => {
+                    // reload t with rows 1..n (the reload itself may fire the trigger: lg is emptied around it)
+                    let rows: Vec<Vec<Option<i64>>> = (1..=n as i64).map(|i| vec![s(i), s(10 * i)]).collect();
+                    let mut prep = vec!["DELETE FROM lg".to_string(), "DELETE FROM t".to_string(), "DELETE FROM lg".to_string(), format!("INSERT INTO t VALUES {}", rows_sql(&rows))];
+                    prep.extend(poison(k as i64));
+                    if event == "UPDATE" {
+                        cases.push(Case {
+                            prep: prep.clone(),
+                            stmt: "UPDATE t SET v = v + 1".into(),
+                            op: Some(Op::Update { table: "T", pred: Pred::NoWhere, col: 1, set: SetExpr::Add(1) }),
+                            kind: "update",
+                            fault,
+                            n,
+                            k,
+                        });
+                        if k > 0 {
+                            cases.push(Case {
+                                prep: prep.clone(),
+                                stmt: format!("UPDATE t SET v = 5 WHERE id = {}", k),
+                                op: Some(Op::Update { table: "T", pred: Pred::Eq(0, k as i64), col: 1, set: SetExpr::Const(s(5)) }),
+                                kind: "update_by_key",
+                                fault,
+                                n,
+                                k,
+                            });
+                        }
+                    } else {
+                        cases.push(Case {
+                            prep: prep.clone(),
+                            stmt: "DELETE FROM t".into(),
+                            op: Some(Op::Delete { table: "T", pred: Pred::NoWhere }),
+                            kind: "delete_nowhere",
+                            fault,
+                            n,
+                            k,
+                        });
+                        cases.push(Case {
+                            prep: prep.clone(),
+                            stmt: "DELETE FROM t WHERE id >= 1".into(),
+                            op: Some(Op::Delete { table: "T", pred: Pred::Ge(0, 1) }),
+                            kind: "delete_range",
+                            fault,
+                            n,
+                            k,
+                        });
+                        if k > 0 {
+                            cases.push(Case {
+                                prep: prep.clone(),
+                                stmt: format!("DELETE FROM t WHERE id = {}", k),
+                                op: Some(Op::Delete { table: "T", pred: Pred::Eq(0, k as i64) }),
+                                kind: "delete_by_key",
+                                fault,
+                                n,
+                                k,
+                            });
+                        }
+                    }
+                }
+            }
+        }
+    }
+    let future = vec![
+        one("INSERT INTO t VALUES (11, 1)"),
+        one("INSERT INTO t VALUES (12, 1)"),
+        one("INSERT INTO t VALUES (1, 1)"),
+        one("INSERT INTO lg VALUES (11)"),
+        one("INSERT INTO lg VALUES (1)"),
+        one("INSERT INTO lg VALUES (111)"),
+        one("INSERT INTO lg VALUES (0)"),
+        one("SELECT id FROM t WHERE v >= 0 ORDER BY v, id"),
+        one("SELECT id FROM t WHERE v = 101"),
+        one("SELECT id FROM t WHERE v = 10"),
+    ];
+    Scenario { name: format!("trig/{}/{}/{}", timing, event, gran), prelude, schema, setup, cases, future }
+}
+
+pub fn scenarios(thorough: bool) -> Vec<Scenario> {
+    let mut v = vec![cons_scenario(thorough), fk_scenario(thorough)];
+    for timing in ["BEFORE", "AFTER"] {
+        for event in ["INSERT", "UPDATE", "DELETE"] {
+            for gran in ["ROW", "STATEMENT"] {
+                v.push(trig_scenario(timing, event, gran, thorough));
+            }
+            if thorough {
+                v.push(trig_scenario(timing, event, "ROW2", thorough));
+            }
+        }
+    }
+    v
+}
+
+// ------------------------------------------------------------------------------------------------
+
+const CONTEXTS: [&str; 2] = ["auto", "tx"];
+
+fn ctx_prefix(ctx: &str) -> Vec<String> {
+    if ctx == "tx" {
+        strs(&["BEGIN", "SAVEPOINT sp"])
+    } else {
+        vec![]
+    }
+}
+
+fn ctx_future(sc: &Scenario, ctx: &str) -> Vec<Vec<String>> {
+    let mut f = sc.future.clone();
+    if ctx == "tx" {
+        let sel: Vec<String> = sc.schema.names().iter().map(|n| format!("SELECT * FROM {}", n.to_lowercase())).collect();
+        for head in ["ROLLBACK TO SAVEPOINT sp", "ROLLBACK", "COMMIT"] {
+            let mut q = vec![head.to_string()];
+            q.extend(sel.clone());
+            f.push(q);
+        }
+    }
+    f
+}
+
+#[derive(Debug, Clone, PartialEq)]
+pub struct Verdict {
+    pub kind: &'static str,
+    pub what: String,
+}
+
+#[derive(Debug, Clone, Copy, PartialEq, Eq)]
+pub enum Class {
+    SkippedPrep,
+    ErrUnchanged,
+    ErrInternalOnly,
+    ErrChanged,
+    OkChecked,
+    OkUnchecked,
+    OkWrong,
+    Panic,
+}
+
+/// Evaluate one (state, context, case). `db` is the reached state (not modified).
+pub fn evaluate(sc: &Scenario, db: &Database, ctx: &str, case: &Case) -> Result<(Class, Option<Verdict>), String> {
+    let mut cur = db.clone();
+    for p in case.prep.iter().chain(ctx_prefix(ctx).iter()) {
+        let o = sx::apply(&mut cur, p);
+        if !o.is_ok() {
+            return Ok((Class::SkippedPrep, None));
+        }
+    }
+    let pre = cur.clone();
+    let out = sx::apply(&mut cur, &case.stmt);
+    match &out {
+        Out::Err(..) | Out::Panic(_) => {
+            let cls_panic = out.is_panic();
+            if vcore::fp::canon(&pre) == vcore::fp::canon(&cur) {
+                return Ok((if cls_panic { Class::Panic } else { Class::ErrUnchanged }, None));
+            }
+            // tables as bags, catalog, index definitions first; the probe battery (point, range, IN,
+            // IS NULL and ORDER BY queries on every column, which go through the indexes) only if
+            // those agree. Row positions inside index entries are deliberately not compared: an undo
+            // that puts a row back at another position keeps the property.
+            let mut a = obs::obs_state_opts(&pre, false, false);
+            let mut b = obs::obs_state_opts(&cur, false, false);
+            if a == b {
+                a = obs::obs_state_opts(&pre, false, true);
+                b = obs::obs_state_opts(&cur, false, true);
+            }
+            if a != b {
+                return Ok((
+                    Class::ErrChanged,
+                    Some(Verdict {
+                        kind: "state_changed_by_failed_statement",
+                        what: format!("`{}` failed ({}) but the observable state changed: {}", case.stmt, out.brief(), obs::first_diff(&a, &b)),
+                    }),
+                ));
+            }
+            let fm = ctx_future(sc, ctx);
+            let fa = sx::future_seq(&pre, &fm);
+            let fb = sx::future_seq(&cur, &fm);
+            if fa != fb {
+                let d = fa.iter().zip(fb.iter()).find(|(x, y)| x != y).map(|(x, y)| format!("expected `{}` got `{}`", x, y)).unwrap_or_default();
+                return Ok((
+                    Class::ErrChanged,
+                    Some(Verdict {
+                        kind: "future_changed_by_failed_statement",
+                        what: format!("`{}` failed ({}) and a later statement sequence behaves differently than before it: {}", case.stmt, out.brief(), d),
+                    }),
+                ));
+            }
+            Ok((if cls_panic { Class::Panic } else { Class::ErrInternalOnly }, None))
+        }
+        _ => {
+            let Some(op) = &case.op else { return Ok((Class::OkUnchecked, None)) };
+            let pre_t = sx::read_schema_tables(&pre, &sc.schema)?;
+            let post_t = sx::read_schema_tables(&cur, &sc.schema)?;
+            let exp = model::expect(&sc.schema, &pre_t, op);
+            if exp.undefined.is_some() || exp.must_reject.is_some() {
+                return Ok((Class::OkUnchecked, None));
+            }
+            let t = op.table();
+            let mut want = exp.post.get(t).cloned().unwrap_or_default();
+            let mut got = post_t.get(t).cloned().unwrap_or_default();
+            want.sort();
+            got.sort();
+            let n = out.count();
+            if want != got || n != Some(exp.affected) {
+                let mut one_t = model::Tables::new();
+                one_t.insert(t.to_string(), want);
+                let mut got_t = model::Tables::new();
+                got_t.insert(t.to_string(), got);
+                return Ok((
+                    Class::OkWrong,
+                    Some(Verdict {
+                        kind: "successful_statement_did_not_apply_all_rows",
+                        what: format!(
+                            "`{}` succeeded ({}) — expected {} rows affected and {}, got {}",
+                            case.stmt,
+                            out.brief(),
+                            exp.affected,
+                            model::fmt_tables(&one_t),
+                            model::fmt_tables(&got_t)
+                        ),
+                    }),
+                ));
+            }
+            Ok((Class::OkChecked, None))
+        }
+    }
+}
+
+fn sig_of(sc: &Scenario, ctx: &str, case: &Case, v: &Verdict) -> Vec<(&'static str, String)> {
+    vec![
+        ("kind", v.kind.to_string()),
+        ("scenario", sc.name.clone()),
+        ("context", ctx.to_string()),
+        ("shape", case.kind.to_string()),
+        ("fault", case.fault.to_string()),
+        ("n", case.n.to_string()),
+        ("k", case.k.to_string()),
+        ("position", (if case.k == 0 { "-" } else if case.k == 1 { "first" } else { "later" }).to_string()),
+    ]
+}
+
+fn case_json(sc: &Scenario, hist: &[String], ctx: &str, case: &Case) -> Value {
+    json!({"scenario": sc.name, "prelude": sc.prelude, "steps": hist, "context": ctx, "prep": case.prep, "stmt": case.stmt,
+           "shape": case.kind, "fault": case.fault, "n": case.n, "k": case.k})
+}
+
+/// Re-execute a recorded case from scratch.
+fn reevaluate(sc: &Scenario, hist: &[String], ctx: &str, case: &Case) -> Result<(Class, Option<Verdict>), String> {
+    let mut db = sx::fresh(&sc.prelude)?;
+    for h in hist {
+        sx::apply(&mut db, h);
+    }
+    evaluate(sc, &db, ctx, case)
+}
+
+/// Evaluate one scenario (worker subprocess) and print the RESULT document.
+pub fn worker(tier: &str, scenario: &str) -> i32 {
+    let thorough = tier == "thorough";
+    let depth = if thorough { 4 } else { 2 };
+    let scs = scenarios(thorough);
+    let Some(sc) = scs.iter().find(|x| x.name == scenario) else {
+        eprintln!("unknown scenario {}", scenario);
+        return 2;
+    };
+    vibesql_types::verif::reset();
+    let col = sx::Collector::default();
+    let confirmed: Mutex<HashSet<String>> = Mutex::new(HashSet::new());
+    let mut classes: BTreeMap<String, u64> = BTreeMap::new();
+    let mut outcome_classes: BTreeMap<String, u64> = BTreeMap::new();
+    let mut samples: Vec<Value> = vec![];
+    let mut evaluations = 0u64;
+    let mut stats = json!({});
+    match sx::reach(&sc.prelude, &sc.setup, depth) {
+        Err(e) => col.machinery_error(e),
+        Ok((states, st)) => {
+            // work items: (state index, context, case index)
+            let mut items: Vec<(usize, usize, usize)> = vec![];
+            for si in 0..states.len() {
+                for ci in 0..CONTEXTS.len() {
+                    for ki in 0..sc.cases.len() {
+                        items.push((si, ci, ki));
+                    }
+                }
+            }
+            let results: Vec<Result<(Class, Option<Verdict>), String>> = vcore::util::par_map(&items, |_, (si, ci, ki)| {
+                let case = &sc.cases[*ki];
+                let hist = &states[*si].1;
+                if sx::tracing() {
+                    sx::trace(&case_json(sc, hist, CONTEXTS[*ci], case));
+                }
+                let r = evaluate(sc, &states[*si].0, CONTEXTS[*ci], case);
+                if let Ok((_, Some(v))) = &r {
+                    let sig = sig_of(sc, CONTEXTS[*ci], case, v);
+                    let key = sig.iter().map(|(k, x)| format!("{}={}", k, x)).collect::<Vec<_>>().join(";");
+                    let first = confirmed.lock().unwrap().insert(key.clone());
+                    if first {
+                        // re-execute from scratch before reporting (DESIGN R3): the same kind of
+                        // violation must show again twice. The engine iterates over hash maps with
+                        // random seeds (e.g. the order in which child tables are visited), so *which*
+                        // partial effect a failed statement leaves may differ between runs; a
+                        // violation that never shows again is a machinery error, not a verdict.
+                        let mut again = 0;
+                        let mut last = None;
+                        for _ in 0..6 {
+                            let a = reevaluate(sc, hist, CONTEXTS[*ci], case);
+                            if matches!(&a, Ok((_, Some(x))) if x.kind == v.kind) {
+                                again += 1;
+                                if again == 2 {
+                                    break;
+                                }
+                            }
+                            last = Some(a);
+                        }
+                        if again < 2 {
+                            confirmed.lock().unwrap().remove(&key);
+                            col.machinery_error(format!("violation not reproduced from scratch: {:?}, last re-execution {:?} (history {:?}, case {})", v, last, hist, case.stmt));
+                            return r;
+                        }
+                    }
+                    col.violation(&sig, v.what.clone(), case_json(sc, hist, CONTEXTS[*ci], case));
+                }
+                r
+            });
+            for ((si, ci, ki), r) in items.iter().zip(results.iter()) {
+                match r {
+                    Err(e) => col.machinery_error(e.clone()),
+                    Ok((cls, _)) => {
+                        if *cls != Class::SkippedPrep {
+                            evaluations += 1;
+                        }
+                        let case = &sc.cases[*ki];
+                        *classes.entry(format!("{:?}", cls)).or_insert(0) += 1;
+                        let fam = sc.name.split('/').next().unwrap_or("");
+                        let oc = format!("{}|{}|{}|k={}/{}|{:?}", fam, case.kind, case.fault, case.k, case.n, cls);
+                        *outcome_classes.entry(oc).or_insert(0) += 1;
+                        if samples.len() < 2 && matches!(cls, Class::ErrUnchanged | Class::ErrInternalOnly) && case.k >= 2 && (*si + *ki) % 7 == 0 {
+                            samples.push(case_json(sc, &states[*si].1, CONTEXTS[*ci], case));
+                        }
+                    }
+                }
+            }
+            stats = json!({"pre_states": st.states, "setup_transitions": st.transitions, "cases": sc.cases.len(), "contexts": CONTEXTS.len()});
+        }
+    }
+    let mut res = col.to_json();
+    res["stats"] = stats;
+    res["evaluations"] = json!(evaluations);
+    res["classes"] = json!(classes);
+    res["outcome_classes"] = json!(outcome_classes);
+    res["samples"] = json!(samples);
+    let reach: BTreeMap<String, u64> = vibesql_types::verif::snapshot().into_iter().filter(|(_, v)| *v > 0).map(|(k, v)| (k.to_string(), v)).collect();
+    res["reach"] = json!(reach);
+    sx::print_result(&res);
+    0
+}
+
+pub fn run(tier: &str) -> i32 {
+    let mut rep = Report::new("C11", tier, "fault_enumeration");
+    let thorough = tier == "thorough";
+    let depth = if thorough { 4 } else { 2 };
+    let scs = scenarios(thorough);
+    let units: Vec<String> = scs.iter().map(|x| x.name.clone()).collect();
+    let outcomes = sx::run_workers("C11", tier, &units, if thorough { 4 } else { 7 });
+    let mut evaluations = 0u64;
+    let mut states_total = 0u64;
+    let mut transitions_total = 0u64;
+    let mut classes: BTreeMap<String, u64> = BTreeMap::new();
+    let mut outcome_classes: BTreeMap<String, u64> = BTreeMap::new();
+    let mut reach: BTreeMap<String, u64> = BTreeMap::new();
+    let mut per_scenario = serde_json::Map::new();
+    let mut samples: Vec<Value> = vec![];
+    let mut aborted_units = vec![];
+    for o in &outcomes {
+        let sc = scs.iter().find(|x| x.name == o.unit).expect("unit is a scenario");
+        if let Some((status, inflight)) = &o.died {
+            match (&o.result, inflight) {
+                (None, Some(case)) => {
+                    // the engine took the process down on this case (twice)
+                    let g = |k: &str| case[k].as_str().unwrap_or("").to_string();
+                    let n = case["n"].as_u64().unwrap_or(0);
+                    let k = case["k"].as_u64().unwrap_or(0);
+                    rep.violation(
+                        &[
+                            ("kind", "process_abort".to_string()),
+                            ("scenario", sc.name.clone()),
+                            ("context", g("context")),
+                            ("shape", g("shape")),
+                            ("fault", g("fault")),
+                            ("n", n.to_string()),
+                            ("k", k.to_string()),
+                            ("position", (if k == 0 { "-" } else if k == 1 { "first" } else { "later" }).to_string()),
+                        ],
+                        format!("the engine aborted the process (worker status {}) while executing `{}`", status, g("stmt")),
+                        case.clone(),
+                    );
+                    aborted_units.push(o.unit.clone());
+                }
+                (None, None) => rep.machinery_error(format!("{}: worker died ({}) and the in-flight case could not be determined", o.unit, status)),
+                (Some(_), _) => rep.machinery_error(format!("{}: worker died once ({}), the single-threaded re-run completed", o.unit, status)),
+            }
+        }
+        let Some(res) = &o.result else { continue };
+        sx::merge_into(&rep, &o.unit, res);
+        evaluations += res["evaluations"].as_u64().unwrap_or(0);
+        states_total += res["stats"]["pre_states"].as_u64().unwrap_or(0);
+        transitions_total += res["stats"]["setup_transitions"].as_u64().unwrap_or(0);
+        for (k, v) in res["classes"].as_object().cloned().unwrap_or_default() {
+            *classes.entry(k).or_insert(0) += v.as_u64().unwrap_or(0);
+        }
+        for (k, v) in res["outcome_classes"].as_object().cloned().unwrap_or_default() {
+            *outcome_classes.entry(k).or_insert(0) += v.as_u64().unwrap_or(0);
+        }
+        for (k, v) in res["reach"].as_object().cloned().unwrap_or_default() {
+            *reach.entry(k).or_insert(0) += v.as_u64().unwrap_or(0);
+        }
+        if samples.len() < 5 {
+            samples.extend(res["samples"].as_array().cloned().unwrap_or_default());
+        }
+        let mut entry = res["stats"].clone();
+        entry["classes"] = res["classes"].clone();
+        per_scenario.insert(o.unit.clone(), entry);
+    }
+    if samples.is_empty() {
+        samples.push(json!({"note": "no failing statement with k >= 2 was observed"}));
+    }
+    // non-vacuity: per (shape, fault) how many evaluations actually failed
+    let mut failed_per_fault: BTreeMap<String, u64> = BTreeMap::new();
+    for (k, n) in &outcome_classes {
+        let parts: Vec<&str> = k.split('|').collect();
+        if parts.len() == 5 && parts[4].starts_with("Err") {
+            *failed_per_fault.entry(format!("{}|{}|{}", parts[0], parts[1], parts[2])).or_insert(0) += n;
+        }
+    }
+    rep.set("evaluations", json!(evaluations));
+    // non-trivial = the statement under test returned an error (or panicked), i.e. the before/after
+    // comparison was actually exercised; every (state, context, case) triple is a distinct case
+    let nontrivial: u64 = classes.iter().filter(|(k, _)| k.starts_with("Err") || k.as_str() == "Panic").map(|(_, n)| *n).sum();
+    rep.set("distinct_nontrivial", json!(nontrivial));
+    rep.set("distinct_outcome_classes", json!(outcome_classes.len()));
+    rep.set("nontrivial_rule", json!("a (pre-state, context, case) triple is non-trivial when the statement under test returned an error or panicked, so that the before/after observation comparison was exercised; triples are distinct by construction (states are merged on their fingerprint, cases are distinct statements/preparations)"));
+    rep.set("pre_states", json!(states_total));
+    rep.set("setup_transitions", json!(transitions_total));
+    rep.set("setup_depth", json!(depth));
+    rep.set("scenarios", json!(scs.len()));
+    rep.set("outcome_totals", json!(classes));
+    rep.set("failed_evaluations_per_shape_and_fault", json!(failed_per_fault));
+    rep.set("per_scenario", Value::Object(per_scenario));
+    rep.set("aborted_scenarios", json!(aborted_units));
+    rep.set("exhaustive", json!(aborted_units.is_empty()));
+    rep.set("samples", json!(samples));
+    rep.set(
+        "rule",
+        json!("for every scenario (each in its own worker process): all states reachable in ≤ D set-up steps (merged on the canonical whole-value fingerprint) × {autocommit, BEGIN+SAVEPOINT} × every case of the statement menu (statement shape × fault class × failing position k of n ≤ 3, with the preparation that puts the fault at row k); a failing statement must leave obs_state and the outcome of every follow-up probe sequence unchanged; a succeeding statement the model can express must report and apply all rows; a case on which the engine aborts the process is reported"),
+    );
+    rep.set("reach", json!(reach));
+    println!(
+        "C11 {}: {} scenarios, {} pre-states, {} evaluations ({} non-trivial), {} distinct outcome classes, totals {:?}, aborted: {}",
+        tier,
+        scs.len(),
+        states_total,
+        evaluations,
+        nontrivial,
+        outcome_classes.len(),
+        classes,
+        aborted_units.len()
+    );
+    rep.finish()
+}
+
+pub fn replay(case: &Value) -> i32 {
+    let name = case["scenario"].as_str().unwrap_or("");
+    let scs = scenarios(true);
+    let Some(sc) = scs.iter().find(|x| x.name == name) else {
+        eprintln!("unknown scenario {}", name);
+        return 2;
+    };
+    let strv = |k: &str| -> Vec<String> { case[k].as_array().map(|a| a.iter().filter_map(|x| x.as_str().map(String::from)).collect()).unwrap_or_default() };
+    let hist = strv("steps");
+    let ctx = case["context"].as_str().unwrap_or("auto").to_string();
+    let stmt = case["stmt"].as_str().unwrap_or("").to_string();
+    let prep = strv("prep");
+    // find the case in the menu (for the model op); fall back to an unchecked case
+    let found = sc.cases.iter().find(|c| c.stmt == stmt && c.prep == prep);
+    let tmp;
+    let c: &Case = match found {
+        Some(c) => c,
+        None => {
+            tmp = Case { prep: prep.clone(), stmt: stmt.clone(), op: None, kind: "replayed", fault: "replayed", n: 0, k: 0 };
+            &tmp
+        }
+    };
+    let mut db = match sx::fresh(&sc.prelude) {
+        Ok(d) => d,
+        Err(e) => {
+            eprintln!("{}", e);
+            return 2;
+        }
+    };
+    for p in &sc.prelude {
+        println!("{}", p);
+    }
+    for h in hist.iter().chain(prep.iter()).chain(ctx_prefix(&ctx).iter()) {
+        let o = sx::apply(&mut db, h);
+        println!("{}\n   => {}", h, o.brief());
+    }
+    let sel: Vec<String> = sc.schema.names().iter().map(|n| format!("SELECT * FROM {}", n.to_lowercase())).collect();
+    println!("-- before");
+    for q in &sel {
+        println!("{} => {}", q, sx::apply(&mut db, q).brief());
+    }
+    let o = sx::apply(&mut db, &stmt);
+    println!("-- statement\n{}\n   => {}", stmt, o.brief());
+    println!("-- after");
+    for q in &sel {
+        println!("{} => {}", q, sx::apply(&mut db, q).brief());
+    }
+    match reevaluate(sc, &hist, &ctx, c) {
+        Ok((_, Some(v))) => {
+            println!("VERDICT violation kind={} {}", v.kind, v.what);
+            1
+        }
+        Ok((cls, None)) => {
+            println!("VERDICT no violation reproduced ({:?})", cls);
+            0
+        }
+        Err(e) => {
+            eprintln!("{}", e);
+            2
+        }
+    }
+}
+
+#[cfg(test)]
+mod tests {
+    //! Witnesses of the findings that were repaired in /repo (DESIGN R7): each must be quiet now.
+    use super::*;
+
+    fn quiet(scenario: &str, shape: &str, fault: &str, n: usize, k: usize) {
+        let scs = scenarios(true);
+        let sc = scs.iter().find(|s| s.name == scenario).expect("scenario");
+        let mut seen = 0;
+        for case in sc.cases.iter().filter(|c| c.kind == shape && c.fault == fault && c.n == n && c.k == k) {
+            for ctx in CONTEXTS {
+                let (_, v) = reevaluate(sc, &[], ctx, case).expect("harness");
+                assert!(v.is_none(), "{:?}", v);
+                seen += 1;
+            }
+        }
+        assert!(seen > 0);
+    }
+
+    #[test]
+    fn bulk_transfer_is_all_or_nothing() {
+        quiet("cons", "insert_select_bulk", "check", 3, 2);
+        quiet("cons", "insert_select_bulk_uidx", "uidx_dup_batch", 3, 3);
+        quiet("fk", "insert_child_select_bulk", "fk_orphan", 3, 2);
+    }
+
+    #[test]
+    fn blocked_parent_statement_changes_nothing() {
+        quiet("fk", "delete_parent_range", "fk_no_action_child", 3, 2);
+        quiet("fk", "update_parent_key", "fk_no_action_child", 3, 3);
+    }
+
+    #[test]
+    fn failing_trigger_changes_nothing() {
+        quiet("trig/AFTER/INSERT/ROW", "insert_values", "trigger_row", 3, 2);
+        quiet("trig/BEFORE/UPDATE/ROW", "update", "trigger_row", 3, 3);
+        quiet("trig/AFTER/DELETE/STATEMENT", "delete_range", "trigger_statement", 2, 1);
+    }
+
+    #[test]
+    fn conflict_resolving_insert_is_all_or_nothing() {
+        quiet("cons", "insert_on_duplicate_key_update", "unique_dup_in_update", 2, 2);
+        quiet("cons", "replace_values_uidx", "uidx_dup_existing", 2, 2);
+    }
 }
